@@ -173,3 +173,56 @@ Proof. exact ex_writer. Qed.
 (* ... and rejects the same document with the cost off by one *)
 Theorem C03_nonvacuous_rejects : replay_viol ex_P ex_S_cost = [RStatCost 0].
 Proof. exact ex_cost_rejected. Qed.
+
+(* ---------------------------------------------------------------------------------------------------------------------------
+   ROUND FOUR (Spec/ValidX.v): features the end-to-end generator did not produce before. *)
+From VRP Require Import Spec.ValidX Proofs.ValidXP.
+
+(* REPLACEMENT tasks (jobs.md: "a new good to be loaded at the beginning of the journey and old replaced one brought to journey's
+   end"): the replayed load does not change at a replacement activity (the new good leaves, the old one comes on board) ... *)
+Theorem C03_replacement_load_constant : forall a l,
+  is_repl_act a = true -> d_ps (a_dem a) = d_ds (a_dem a) -> Intervals.load_after l [a] = l.
+Proof. exact repl_load_constant. Qed.
+
+(* ... which is the shape Valid.demand_of gives every replacement task *)
+Theorem C03_replacement_demand : forall job tk, tk_kind tk = 3 -> 0 < tk_demand tk ->
+  demand_of job tk = mkDemand (tk_demand tk) 0 (tk_demand tk) 0.
+Proof. exact demand_of_replacement. Qed.
+
+(* non-vacuity / witness: a document with a replacement of demand 4 (loads 4, 5, 5, 0) is accepted by the whole checker; the
+   same document reporting the load of a plain delivery behind the replacement (the replaced good counted once) gives
+   exactly [RLoad 0 2] *)
+Theorem C03_nonvacuous_replacement :
+  valid_b ex_Pr ex_Sr ++ mixed_viols ex_Pr ex_Sr = [] /\ valid_b ex_Pr ex_Sr_once = [RLoad 0 2].
+Proof. exact (conj (proj1 ex_replacement) (proj2 (proj2 ex_replacement))). Qed.
+
+(* REQUIRED BREAKS: the schedule is replayed around the break intervals the tour reports.  The clock: something that starts at s
+   and needs d units of time outside the (sorted, disjoint) intervals B is over at `adv B s d`, and that is THE moment t >= s
+   that is not strictly inside an interval, has exactly d units outside the intervals between s and t, and is the first such
+   moment *)
+Theorem C03_clock_sound_complete : forall B s d t, iv_ok B = true -> 0 <= d -> (adv B s d = t <-> AdvSpec B s d t).
+Proof. exact adv_iff. Qed.
+
+(* without required breaks the replay that runs (`replay4`) IS Valid.replay_viol ++ Valid.xreplay_viols *)
+Theorem C03_no_required_breaks_is_replay_viol : forall P S, replay4 X0 P S = replay_viol P S ++ xreplay_viols P S.
+Proof. exact replay4_X0. Qed.
+
+Theorem C03_required_break_clock_examples :
+  adv [(12, 16)] 10 5 = 19 /\ adv [(4, 7)] 0 10 = 13 /\ adv [(12, 16)] 14 0 = 16 /\ adv [(12, 16)] 12 0 = 12
+  /\ net [(12, 16)] 10 19 = 5 /\ net [(12, 16)] 10 15 = 2.
+Proof. exact ex_clock. Qed.
+
+(* non-vacuity: a service interrupted by a required break (10 .. 19 for 5 s of work around the break 12 .. 16; statistic break 4)
+   and a break taken while driving (stop without location 4 .. 7, arrival 13 instead of 10) are replayed exactly *)
+Theorem C03_nonvacuous_required_break :
+  valid4 ex_Xq ex_P ex_Sq = [] /\ st_break (sl_stat ex_Sq) = 4 /\ valid4 ex_Xt ex_P ex_St = [] /\ st_break (sl_stat ex_St) = 3.
+Proof.
+  split; [exact (proj1 ex_required_break)|]. split; [reflexivity|]. split; [exact (proj1 (proj2 ex_required_break))|reflexivity].
+Qed.
+
+(* finding C03-F4, witness: a break taken while the vehicle waits.  The times are a SPLIT of the duration (statistic.md): 45 =
+   driving 20 + serving 5 + waiting 15 + break 5, cost 117; the document the writer produces reports waiting 20 (arrival to start,
+   the break's 5 s once more) and cost 127: exactly [RStatWaiting 0; RStatCost 0], and 20 + 5 + 20 + 5 is not the duration *)
+Theorem C03_break_while_waiting_counted_twice_refuted :
+  valid4 ex_Xw ex_Pw ex_Sw = [] /\ valid4 ex_Xw ex_Pw ex_Sw_twice = [RStatWaiting 0; RStatCost 0] /\ 20 + 5 + 20 + 5 <> 45.
+Proof. exact ex_required_break_waiting. Qed.
